@@ -85,6 +85,14 @@ func keName(n string) string {
 	return n
 }
 
+// local refuses a Go local that would shadow one of the names the recognisers read literally.
+func (g *keGen) local(id *ast.Ident) {
+	switch id.Name {
+	case "exact", "tuple", "strconv", "json", "make", "len", "panic", "nil", "string":
+		refuse("%s: the local variable %s shadows a name the generator reads literally", g.at(id), id.Name)
+	}
+}
+
 func (g *keGen) at(n ast.Node) string {
 	p := g.fset.Position(n.Pos())
 	return fmt.Sprintf("io.go:%d", p.Line)
@@ -184,6 +192,7 @@ func (g *keGen) mapPair(fn string, s1, s2 ast.Stmt) (string, bool) {
 	if !ok || len(mk.Args) != 2 {
 		refuse("%s: make outside the subset", g.at(s1))
 	}
+	g.local(x)
 	elem, slice, ok := keElemType(mk.Args[0])
 	if !ok {
 		refuse("%s: make of %s outside the subset", g.at(s1), exprString(mk.Args[0]))
@@ -216,6 +225,8 @@ func (g *keGen) mapPair(fn string, s1, s2 ast.Stmt) (string, bool) {
 	if !ok1 || !ok2 || !ok3 || rx.Name != src.Name || ri.Name == "_" || re.Name == "_" || ri.Name == re.Name {
 		refuse("%s: the loop does not range over %s with an index and an element", g.at(s2), src.Name)
 	}
+	g.local(ri)
+	g.local(re)
 	if len(rs.Body.List) != 1 {
 		refuse("%s: loop body outside the subset", g.at(s2))
 	}
@@ -265,6 +276,8 @@ func (g *keGen) marshalPair(s1, s2 ast.Stmt) bool {
 	if !ok1 || !ok2 || p.Name == "_" || er.Name == "_" || len(call.Args) != 1 || call.Ellipsis.IsValid() {
 		refuse("%s: json.Marshal call outside the subset", g.at(s1))
 	}
+	g.local(p)
+	g.local(er)
 	a := g.expr(call.Args[0])
 	if a.typ != keTuples {
 		refuse("%s: json.Marshal of a %s", g.at(s1), a.typ)
@@ -423,6 +436,7 @@ func genKeyEnc(repo string) (text string, err error) {
 			refuse("io.go: exact: type switch guard outside the subset")
 		}
 		bound = a.Lhs[0].(*ast.Ident).Name
+		g.local(a.Lhs[0].(*ast.Ident))
 		guard = a.Rhs[0]
 	default:
 		refuse("io.go: exact: the type switch does not bind the value")
@@ -475,6 +489,8 @@ func genKeyEnc(repo string) (text string, err error) {
 	// --- encodePayload
 	fp := keFunc(af, "encodePayload")
 	pp := keSignature(fp, "[]tuple", "[]byte")
+	g.local(fp.Type.Params.List[0].Names[0])
+	g.local(fe.Type.Params.List[0].Names[0])
 	g.vars = map[string]keVal{pp: {keName(pp), keTuples}}
 	res := g.stmts("encodePayload", fp.Body.List)
 	if res.typ != keBytes {
